@@ -31,6 +31,8 @@ func main() {
 	g.sameNameCalls()
 	g.pinnedRetHist()
 	g.pinnedNamed()
+	g.pinnedKMap()
+	g.pinnedCallback()
 	g.fieldWriteCase(0, &gty{rt: kinds[0].rt, coq: "(TNum KI)", kind: "num", nk: 0}, jsString("eighty"))
 	g.fieldWriteCase(5, &gty{rt: kinds[0].rt, coq: "(TNum KI)", kind: "num", nk: 0}, jsx{"true", "(JBool true)"})
 	g.sweepFieldWrite()
@@ -38,7 +40,7 @@ func main() {
 	g.sweepStore()
 	g.sweepArity()
 	for env.Count() < env.N {
-		switch env.Rng.Intn(60) {
+		switch env.Rng.Intn(70) {
 		case 0, 1, 2:
 			g.randNum()
 		case 3, 4, 5:
@@ -75,6 +77,10 @@ func main() {
 			g.namedCase(env.Rng.Intn(len(namedPaths)))
 		case 47, 48, 49, 50, 51:
 			g.partialCase()
+		case 52, 53, 54, 55, 56:
+			g.randKMap()
+		case 57, 58, 59, 60:
+			g.randCallback()
 		default:
 			g.callCase()
 		}
